@@ -404,8 +404,10 @@ fn read_cleartext_body<B: BufRead>(b: &mut B) -> Result<(String, String)> {
             return Ok(("".to_string(), out));
         }
 
-        // Look for header start in the last line
-        if let Some(pos) = out.rfind("\n-----") {
+        // Look for header start in the last line (including the line break in front of it);
+        // searching all of `out` again for every line would be quadratic
+        let from = (out.len() - read).saturating_sub(1);
+        if let Some(pos) = out[from..].rfind("\n-----").map(|pos| pos + from) {
             // found our end
             let rest = out.split_off(pos + 1);
 
